@@ -325,6 +325,34 @@ func runC04(cfg config) {
 		}
 		repeatSame[i] = same
 	}
+	// temporal elements of resources read under every process time zone: the answer may not depend on time.Local
+	tzSame := map[string]bool{}
+	tzRes := map[string]proto.Message{"Patient": res, "Observation": temporalObservation()}
+	tzProgs := []string{"Patient.birthDate", "Patient.birthDate.toString()", "Patient.birthDate = @2000-02-29", "Patient.birthDate < today()", "Patient.birthDate + 1 day",
+		"Observation.value", "Observation.value.toString()", "Observation.value > @T14:00", "Observation.value = @T14:30:15.250", "Observation.value.toTime()", "Observation.value is Time", "Observation.value < timeOfDay()",
+		"Observation.component.value", "Observation.component.value.toString()", "Observation.component.value.where($this > @T01:00)", "Observation.component.value = @T23:59:59",
+		"Observation.effective", "Observation.effective.toString()", "Observation.effective < now()", "Observation.effective = @2024-03-10T01:30:00+05:30", "Observation.effective.toDate()", "Observation.effective + 2 hours",
+		"Observation.issued", "Observation.issued.toString()", "Observation.issued > @2020-01-01T00:00:00Z", "Observation.issued.toDateTime()", "Observation.issued = @2024-03-09T20:00:00.123Z"}
+	for _, p := range tzProgs {
+		e, err := fhirpath.Compile(p, compopts.WithExperimentalFuncs())
+		if err != nil {
+			continue
+		}
+		target := tzRes[strings.SplitN(p, ".", 2)[0]]
+		savedLocal := time.Local
+		same, first := true, ""
+		for zi, procTZ := range zones {
+			time.Local = procTZ
+			a := c04Evaluate(e, target, fixed)
+			if zi == 0 {
+				first = a
+			} else if a != first {
+				same = false
+			}
+		}
+		time.Local = savedLocal
+		tzSame[p] = same
+	}
 	self, _ := os.Executable()
 	childOut := cfg.out + "-child"
 	cmd := exec.Command(self, "C04-concurrent-child", "-seed", fmt.Sprint(cfg.seed), "-tier", cfg.tier, "-out", childOut)
@@ -365,7 +393,14 @@ func runC04(cfg config) {
 		sink.add(fmt.Sprintf("CRun %s, ORun %s %s %s %s", coqN(uint64(i)), coqBool(repeatSame[i]), coqBool(cs), coqBool(races == 0), coqBool(!crashed)),
 			"program "+progs[i], "run", fmt.Sprintf("run:%d", i%200))
 	}
+	for pi, p := range tzProgs {
+		same, ok := tzSame[p]
+		if !ok {
+			continue
+		}
+		sink.add(fmt.Sprintf("CRun %s, ORun %s true true true", coqN(uint64(100000+pi)), coqBool(same)), "under five process time zones: "+p, "run-tz", fmt.Sprintf("run-tz:%d", pi))
+	}
 	sink.finish("random histories of Compile / patch.Compile calls with AddFunction (fresh, duplicate, built-in names, bad signatures), WithExperimentalFuncs, Permissive: visibility of eight probe names after each; "+
-		"OverrideTime at random instants in five zones x five process time zones: now / today / timeOfDay; every sixth generated program plus regex / join / distinct programs evaluated repeatedly, with recompilation, and from 16 goroutines "+
+		"OverrideTime at random instants in five zones x five process time zones: now / today / timeOfDay; date, time, dateTime and instant elements of resources read under the five process time zones; every sixth generated program plus regex / join / distinct programs evaluated repeatedly, with recompilation, and from 16 goroutines "+
 		"on shared expressions and resources in a child process (race detector built in when the check driver asks for it)", false)
 }
